@@ -104,7 +104,7 @@ static Plan gen_c05(uint64_t seed, const std::string &tier) {
     return p;
 }
 // a message in which some value was cut: literals and the values that fit appear verbatim and in order, and in the place of every
-// cut value stands a prefix of it of at most datasource_message_max_length bytes
+// cut value stands a non-empty prefix of it of at most datasource_message_max_length bytes (a limited value is shortened, not dropped)
 static bool match_segments(const std::vector<Expansion::Seg> &segs, const std::string &rec, long dsmax) {
     std::set<std::pair<size_t, size_t>> seen;
     std::function<bool(size_t, size_t)> go = [&](size_t i, size_t pos) -> bool {
@@ -113,7 +113,7 @@ static bool match_segments(const std::vector<Expansion::Seg> &segs, const std::s
         const Expansion::Seg &s = segs[i];
         if (!s.variable) { if (pos + s.text.size() > rec.size() || rec.compare(pos, s.text.size(), s.text) != 0) return false; return go(i + 1, pos + s.text.size()); }
         size_t lcp = 0; while (lcp < s.text.size() && pos + lcp < rec.size() && lcp < (size_t)dsmax && rec[pos + lcp] == s.text[lcp]) lcp++;
-        for (size_t k = lcp + 1; k-- > 0;) if (go(i + 1, pos + k)) return true;
+        for (size_t k = lcp; k >= 1; k--) if (go(i + 1, pos + k)) return true;   // cut, not dropped: at least one byte of the value stands in its place
         return false;
     };
     return go(0, 0);
@@ -130,7 +130,7 @@ static Verdict oracle_c05(const Plan &p, const RunResult &r) {
         if (rec.back() == '\n') rec.pop_back();
         if ((long)rec.size() > e.cfg.logmax) return bad("message-over-limit", "message of " + std::to_string(rec.size()) + " bytes with log_message_max_length = " + std::to_string(e.cfg.logmax));
         if (!e.msg.exact && e.msg.segs_ok && e.msg.cut_total <= e.cfg.logmax && !e.cfg.error_logging && !match_segments(e.msg.segs, rec, e.cfg.dsmax))
-            return bad("cut-message-structure", "call #" + std::to_string(cv.opi) + ": some value exceeds datasource_message_max_length = " + std::to_string(e.cfg.dsmax) + " and the whole still fits log_message_max_length, but the record is not 'literals and fitting values verbatim, a prefix of at most that many bytes for each cut value': " + show(rec, 160));
+            return bad("cut-message-structure", "call #" + std::to_string(cv.opi) + ": some value exceeds datasource_message_max_length = " + std::to_string(e.cfg.dsmax) + " and the whole still fits log_message_max_length, but the record is not 'literals and fitting values verbatim, a non-empty prefix of at most that many bytes for each cut value': " + show(rec, 160));
         const J &vals = p.extra.at("vals");
         for (size_t i = 0; i < vals.a.size() && i < 26; i++) {
             long cnt = (long)std::count(rec.begin(), rec.end(), (char)('a' + i));
@@ -411,7 +411,7 @@ static Plan gen_c15(uint64_t seed, const std::string &tier) {
     if (pids.back() == 1) { Proc in; in.pid = 1; in.ppid = 0; in.comm = "systemd"; w.procs.push_back(in); }
     w.ppid = pids[1];
     int fail_depth = -1;
-    if (r.chance(1, 4)) { fail_depth = (int)r.range(1, depth); w.procs[(size_t)fail_depth].stat_errno = r.chance(1, 2) ? 2 : 13; }
+    if (r.chance(1, 4)) { fail_depth = (int)r.range(1, depth); static const int how[] = {2, 13, -1, -2}; w.procs[(size_t)fail_depth].stat_errno = how[r.below(4)]; }
     if (r.chance(1, 10)) { w.procs.erase(w.procs.begin() + (long)r.range(1, (int)w.procs.size() - 1)); }   // ancestor vanished
     // the list
     int mode = (int)r.below(4); int match_pos = -1;
@@ -573,6 +573,11 @@ static Plan gen_c08(uint64_t seed, const std::string &tier) {
         if (r.chance(1, 8)) f += r.chance(1, 2) ? "\n" : "   \t \n";
         if (r.chance(1, 8)) f += "; " + opt + " = commented-out\n";
         if (r.chance(1, 12)) { static const char *bad[] = {"line without separator\n", "[unterminated section\n", "====\n", "message_format\n", "] stray\n"}; f += bad[r.below(5)]; if (f.find("[unterminated") != std::string::npos) f += "[snoopy]\n"; }
+        if (r.chance(1, 8)) {   // a line that just fits the parser's 1024-byte line buffer (1022 characters + newline is the longest whole line); what follows it still counts
+            size_t L = 1020 + (size_t)r.below(3);
+            if (roundtrip || r.chance(1, 2)) f += (r.chance(1, 2) ? ";" : "#") + std::string(L - 1, '-') + "\n";
+            else { std::string head = r.chance(1, 2) ? "message_format = " : "syslog_ident = "; f += head + std::string(L - head.size(), 'm') + "\n"; }
+        }
         std::string sep = r.chance(1, 4) ? "=" : r.chance(1, 4) ? ":" : r.chance(1, 2) ? " = " : "\t=   ";
         if (sep == ":" && (v.empty() || opt == "output")) sep = " = ";
         std::string line = (r.chance(1, 12) ? "  " : "") + opt + sep + quote_if_needed(r, v, false);
